@@ -1,0 +1,3 @@
+// Package verifhooks re-exports pieces of internal packages for the out-of-module verification harness.
+// Everything except this file is guarded by the build tag "verif".
+package verifhooks
